@@ -121,6 +121,7 @@ def gen_cases(ctx):
 
 def run(ctx):
     ctx.check_props()
+    gen_fail = ctx.genlink_goarith("GoLinkC07")    # the table of PAR2 constants (init() of rsec16/coder.go) is re-translated from the source
     model = ctx.build_model()
     vh = ctx.build_harness()
     if ctx.replay:
@@ -180,6 +181,7 @@ def run(ctx):
     if not ctx.replay and singular_seen == 0:
         ctx.violation("the constructed PAR2-Vandermonde singular minors were not singular in the model: generator no longer reaches the singular branch",
                       {"cases_full": [], "class": {"class": "generator"}}, no_failing_input=True)
+    ctx.report_genlink(gen_fail, "GoLinkC07")
     return ctx.finish(
         "proof",
         rule="every erasure subset (data x parity masks) of every code with d<=5,p<=4 (thorough d<=7,p<=5) for both coders, shard lengths 1,2,15,17 words, goroutines 1,2,3,7; random codes up to 300+40 (thorough 3000) at exact capacity, one short, and below; constructor limits/panics; PAR2-Vandermonde singular 2x2 minors built from constants whose ratio has order 5 (and 3), with a non-singular control; non-trivial = at least one data shard erased",
